@@ -151,6 +151,12 @@ def gen_params(r):
                 weight_sum_min=r.choice([-1.0, -1.0, 0.05, 0.2, 1.0, 0.0]))
 
 
+def ws_wsm(p):
+    """weight_sum_min handed to write_grid_image_single when re-deriving the one-shot grid from weights/accums:
+    one-shot fornav replaces the default -1 by weight_min before writing (the dask path does not)."""
+    return p["weight_min"] if p["weight_sum_min"] == -1.0 else p["weight_sum_min"]
+
+
 def rand_chunks(r, n):
     mode = r.random()
     if mode < 0.2:
@@ -191,7 +197,7 @@ def gen_fornav_case(r, big=False):
     p = gen_params(r)
     return {"cols": hex2(cols), "rows": hex2(rows), "data": hex2(data), "dtype": dtype, "rps": gen_rps(r, R),
             "params": p, "mwm": mwm, "grid": [h, w], "fill": H(fill), "kind": kind, "const": const,
-            "has_fill": has_fill, "geo": geo}
+            "has_fill": has_fill, "geo": geo, "ws_wsm": ws_wsm(p)}
 
 
 def lonlat_of(area, cols, rows):
@@ -227,6 +233,7 @@ def gen_scene(r, big=False, dropped=False):
                "fill": H(fill), "in_rows": in_rows, "out_chunks": [rand_chunks(r, h), rand_chunks(r, w)],
                "legacy": (not big) and r.random() < 0.5, "want_sub_fp": not big, "want_fp": True,
                "kind": kind, "const": const, "has_fill": has_fill, "grid": [h, w]})
+    sc["ws_wsm"] = ws_wsm(sc["params"])
     return sc
 
 
@@ -297,7 +304,7 @@ def known_scene():
     sc.update({"lons": hex2(lon), "lats": hex2(lat), "data": hex2(data), "dtype": "f8", "rps": 2,
                "params": dict(DEFAULT_PARAMS), "mwm": False, "fill": H(NAN), "in_rows": 2, "out_chunks": [[6, 6], [6, 6]],
                "legacy": True, "want_sub_fp": True, "want_fp": True, "kind": "ramp", "const": None, "has_fill": False,
-               "grid": [12, 12]})
+               "grid": [12, 12], "ws_wsm": 0.01})
     return sc
 
 
@@ -660,23 +667,17 @@ def shard(items, n):
 
 
 # ----------------------------------------------------------------------------------------------- run
-def run_impl(ctx, payload, nshards=8):
-    """Run the driver on shards of the case lists in parallel; results in the original order."""
-    keys = [k for k in payload if payload[k]]
-    jobs = []
-    for k in keys:
-        n = len(payload[k])
-        per = max(1, math.ceil(n / nshards))
-        for s in range(0, n, per):
-            jobs.append((k, s, payload[k][s:s + per]))
+def run_impl(ctx, payload, nshards=10):
+    """Run the driver on interleaved shards of the case lists in parallel; results in the original order."""
     res = {k: [None] * len(payload[k]) for k in payload}
 
-    def one(job):
-        k, s, cases = job
-        return k, s, ctx.impl("c08", {k: cases})[k]
-    with ThreadPoolExecutor(max_workers=12) as ex:
-        for k, s, outl in ex.map(one, jobs):
-            res[k][s:s + len(outl)] = outl
+    def one(i):
+        sub = {k: payload[k][i::nshards] for k in payload if payload[k][i::nshards]}
+        return i, (ctx.impl("c08", sub) if sub else {})
+    with ThreadPoolExecutor(max_workers=nshards) as ex:
+        for i, outd in ex.map(one, range(nshards)):
+            for k, outl in outd.items():
+                res[k][i::nshards] = outl
     return res
 
 
